@@ -15,6 +15,84 @@ import (
 type c15Case struct {
 	SDL   string   `json:"sdl,omitempty"`
 	Files []string `json:"files,omitempty"` // tool-level case: schema files handed to ggqlgen
+	// Model: the schema is given to the root through the Go API (BuildAPI) instead of as text; SDL
+	// then holds its rendering for the report only
+	Model *hx.Schema `json:"model,omitempty"`
+}
+
+// omitsDefaultedDirArg: some directive use of the model leaves out an argument for which the
+// directive declares a default (@deprecated without a reason included).
+func omitsDefaultedDirArg(s *hx.Schema) bool {
+	omits := func(ds []hx.DirUse) bool {
+		for _, du := range ds {
+			var args []*hx.Arg
+			if du.Name == "deprecated" {
+				dflt := hx.Str("No longer supported")
+				args = []*hx.Arg{{Name: "reason", Default: &dflt}}
+			} else if d := s.Dir(du.Name); d != nil {
+				args = d.Args
+			}
+			for _, a := range args {
+				given := false
+				for _, kv := range du.Args {
+					if kv.Key == a.Name {
+						given = true
+					}
+				}
+				if !given && a.Default != nil {
+					return true
+				}
+			}
+		}
+		return false
+	}
+	for _, d := range s.Dirs {
+		for _, a := range d.Args {
+			if omits(a.Dirs) {
+				return true
+			}
+		}
+	}
+	for _, td := range s.Types {
+		if omits(td.Dirs) {
+			return true
+		}
+		for _, f := range td.Fields {
+			if omits(f.Dirs) {
+				return true
+			}
+			for _, a := range f.Args {
+				if omits(a.Dirs) {
+					return true
+				}
+			}
+		}
+		for _, f := range td.Inputs {
+			if omits(f.Dirs) {
+				return true
+			}
+		}
+		for _, v := range td.Values {
+			if omits(v.Dirs) {
+				return true
+			}
+		}
+	}
+	return false
+}
+
+// loadModel builds a fresh root from the model through the Go API.
+func loadModel(s *hx.Schema) (root *ggql.Root, err error, pan interface{}, usable bool) {
+	ggql.Sort = true
+	ggql.Relaxed = false
+	root = ggql.NewRoot(newRootObj())
+	defer func() {
+		if r := recover(); r != nil {
+			pan = r
+		}
+	}()
+	err, usable = BuildAPI(root, s)
+	return
 }
 
 func firstDiff(a, b string) string {
@@ -43,7 +121,18 @@ func checkC15(c *c15Case) (ds []hx.Discrepancy, info map[string]bool) {
 	add := func(kind, sig, format string, args ...interface{}) {
 		ds = append(ds, hx.Discrepancy{Kind: kind, Sig: sig, Detail: fmt.Sprintf(format, args...)})
 	}
-	root, err, pan := loadFresh(c.SDL)
+	root, err, pan := (*ggql.Root)(nil), error(nil), interface{}(nil)
+	if c.Model != nil {
+		var usable bool
+		root, err, pan, usable = loadModel(c.Model)
+		if !usable {
+			info["not-accepted"] = true
+			return
+		}
+		info["schema-built-with-the-go-api"] = true
+	} else {
+		root, err, pan = loadFresh(c.SDL)
+	}
 	if pan != nil {
 		add("panic", "", "loading the schema panicked: %v\n%s", pan, c.SDL)
 		return
@@ -70,7 +159,20 @@ func checkC15(c *c15Case) (ds []hx.Discrepancy, info map[string]bool) {
 	}
 	p2 := fresh.SDL(false, true)
 	if p2 != p1 {
-		add("print-not-stable", "", "printing the re-parsed schema gives different text: %s\n--- first print\n%s\n--- second print\n%s", firstDiff(p1, p2), p1, p2)
+		sig := ""
+		if c.Model != nil && d0 == d1 && omitsDefaultedDirArg(c.Model) {
+			// recorded finding: a use built without an argument that has a default prints without it,
+			// the parser fills the default into the use it reads back. From the second print on the
+			// text has to be stable.
+			sig = "KF-C15-api-directive-use-defaults"
+			third, err3, pan3 := loadFresh(p2)
+			if pan3 != nil || err3 != nil {
+				add("printed-sdl-rejected", "", "the second print is not accepted: %v %v\n%s", err3, pan3, p2)
+			} else if p3 := third.SDL(false, true); p3 != p2 {
+				add("print-not-stable", "", "printing is not stable from the second print on either: %s\n--- second print\n%s\n--- third print\n%s", firstDiff(p2, p3), p2, p3)
+			}
+		}
+		add("print-not-stable", sig, "printing the re-parsed schema gives different text: %s\n--- first print\n%s\n--- second print\n%s", firstDiff(p1, p2), p1, p2)
 	}
 	// without descriptions the same must hold for the structure
 	q1 := root.SDL(false)
@@ -78,7 +180,16 @@ func checkC15(c *c15Case) (ds []hx.Discrepancy, info map[string]bool) {
 	if pan != nil || err != nil {
 		add("printed-sdl-rejected", "", "the SDL printed without descriptions is not accepted: %v %v\n%s", err, pan, q1)
 	} else if q2 := fresh2.SDL(false); q2 != q1 {
-		add("print-not-stable", "", "printing (no descriptions) is not stable: %s", firstDiff(q1, q2))
+		sig := ""
+		if c.Model != nil && d0 == d1 && omitsDefaultedDirArg(c.Model) {
+			sig = "KF-C15-api-directive-use-defaults"
+			if third, err3, pan3 := loadFresh(q2); pan3 != nil || err3 != nil {
+				add("printed-sdl-rejected", "", "the second print (no descriptions) is not accepted: %v %v\n%s", err3, pan3, q2)
+			} else if q3 := third.SDL(false); q3 != q2 {
+				add("print-not-stable", "", "printing (no descriptions) is not stable from the second print on either: %s", firstDiff(q2, q3))
+			}
+		}
+		add("print-not-stable", sig, "printing (no descriptions) is not stable: %s", firstDiff(q1, q2))
 	}
 	if strings.Contains(d0, "\\\"") || strings.Contains(d0, "\\\\") || strings.Contains(d0, "\\n") {
 		info["text-needing-escape"] = true
@@ -261,6 +372,10 @@ func TestC15(t *testing.T) {
 		s := GenFull(rt, Opts{Descs: true, HostileTxt: true, Directives: true, Deprecated: true})
 		o := hx.SDLOpts{Commas: rapid.Bool().Draw(rt, "commas"), BlockDesc: rapid.Bool().Draw(rt, "blockDesc")}
 		one(rt.Fatalf, &c15Case{SDL: Render(s, nil, o)})
+		if rapid.IntRange(0, 2).Draw(rt, "goAPI") == 0 {
+			// the same schema assembled in code: what is printed was never text before
+			one(rt.Fatalf, &c15Case{SDL: Render(s, nil, o), Model: s})
+		}
 		// tool level (a sample of the cases: each run executes the ggqlgen binary twice)
 		if rapid.IntRange(0, 19).Draw(rt, "toolSample") == 0 {
 			files := []string{Render(s, nil, o)}
